@@ -789,6 +789,9 @@ class _SFTPFileReader(_SFTPParallelIO[bytes]):
 
         data, _ = await self._handler.read(self._handle, offset, size)
 
+        if len(data) > size or (size and not data):
+            raise SFTPBadMessage('Invalid length in read reply')
+
         return len(data), data
 
     async def run(self) -> bytes:
@@ -871,6 +874,10 @@ class _SFTPFileCopier(_SFTPParallelIO[int]):
         assert self._dst is not None
 
         data = await self._src.read(size, offset)
+
+        if size and not data:
+            raise SFTPFailure('Unexpected EOF during file copy')
+
         await self._dst.write(data, offset)
         datalen = len(data)
 
